@@ -901,7 +901,11 @@ M("c03-hyperedge-segments-of-last-tree-only", "C03", "cola/libavoid/hyperedgeimp
   "        m_all_shift_segments.insert(m_all_shift_segments.begin(),\n                segments.begin(), segments.end());", "        m_all_shift_segments.assign(segments.begin(), segments.end());",
   mention=["HYPEREDGE-SEGMENTS-ALL"])
 M("c03-mtst-through-foreign-pins", "C03", "cola/libavoid/mtst.cpp",
-  "        if (other->id.isConnPt() && !realVert->id.isDummyPinHelper() &&", "        if (false && other->id.isConnPt() && !realVert->id.isDummyPinHelper() &&", mention=["HYPEREDGE-AVOIDS-FOREIGN-POINTS"])
+  "            if (realU && realV && (realU != realV) && realV->id.isConnPt() &&", "            if (false && realU && realV && (realU != realV) && realV->id.isConnPt() &&", mention=["HYPEREDGE-AVOIDS-FOREIGN-POINTS"])
+M("c03-mtst-filter-in-the-shared-edge-enumeration", "C03", "cola/libavoid/mtst.cpp",
+  "        VertInf *partner = (isRealVert) ? other : orthogonalPartner(other);\n        COLA_ASSERT(partner);\n",
+  "        if (other->id.isConnPt() && !realVert->id.isDummyPinHelper() &&\n                (origTerminals.find(other) == origTerminals.end()) &&\n                (terminals.find(other) == terminals.end()))\n        {\n            continue;\n        }\n        VertInf *partner = (isRealVert) ? other : orthogonalPartner(other);\n        COLA_ASSERT(partner);\n",
+  mention=["HYPEREDGE-AVOIDS-FOREIGN-POINTS", "shared"])
 M("c12-segment-drags-terminal", "C12", "cola/libavoid/hyperedgeimprover.cpp",
   "                            isImmovable = true;\n", "", mention=["SHIFT-TAKES-IN-IMMOVABLE"])
 MUTANTS.append({"id": "c10-neutral-fixed-route-test-in-segment-class", "prop": "C10", "expect": "silent", "mention": [], "tu": None, "edits": [
